@@ -388,7 +388,71 @@ def run(ctx):
         except Raised as e:
             r2.fail(f"builder:reload {attr}", f"evaluates ({e.exc_name}{e.exc_args})", cf.loc())
     rules.append(builder_input_rule(ctx, "C16", "C16.R9"))
+    rules.append(_dump_completeness_rule(ctx))
     return rules
+
+
+def _dump_completeness_rule(ctx):
+    """The survey-level dump carries every setting the survey object holds, whatever else is set (an entity form keeps
+    its namespaces, ...), and the children of every element kind - a section's list of rows as well as an osm
+    question's tuple of tags."""
+    repo = ctx.repo
+    r = Rule("C16", "C16.R10", "the dump carries every setting and every kind of children", floor=30,
+             necessary="a setting or a child left out of the dump is missing from the survey rebuilt from it")
+    scls = repo.cls("pyxform.survey:Survey")
+    tj = scls.methods["to_json_dict"]
+    slots = tuple(_slots(ctx, scls))
+    SETTINGS = {"title": "My title", "id_string": "my_id", "version": "2024", "style": "pages", "public_key": "KEY", "submission_url": "https://example.org/s", "auto_send": "true",
+                "auto_delete": "false", "namespaces": 'ex="http://example.org/ex"', "instance_name": "concat(${a}, '-')", "attribute": {"ex:role": "x"}, "default_language": "English (en)",
+                "sms_keyword": "kw", "sms_separator": "+", "instance_xmlns": "http://example.org/x", "omit_instanceID": "yes", "add_none_option": True, "clean_text_values": "no",
+                "allow_choice_duplicates": "yes", "file_name": "f.xlsx"}
+    for feats in (None, ["create"], ["create", "update", "offline"]):
+        attrs = {k: None for k in slots}
+        attrs.update({k: v for k, v in SETTINGS.items() if k in slots})
+        attrs.update({"name": "data", "type": "survey", "children": [], "entity_features": feats, "setvalues_by_triggering_ref": {}, "setgeopoint_by_triggering_ref": {}, "_translations": {}, "_xpath": None, "choices": None})
+        sv = Obj(scls, attrs, name="survey", slots=slots)
+        it = ctx.interp("C16.R10", hooks={"fnname:validate": lambda i, a, k, n: None})
+        it.reset([])
+        try:
+            d = it.call_function(tj, [sv], {}, None, tj.node)
+        except Raised as e:
+            r.fail(f"Survey.to_json_dict[entity_features={feats}]", f"evaluates ({e.exc_name}{e.exc_args})", tj.loc())
+            continue
+        for k, v in sorted(SETTINGS.items()):
+            if k not in slots:
+                continue
+            r.check(isinstance(d, dict) and d.get(k) == v, f"Survey.to_json_dict[entity_features={feats}]:{k}", "the setting is in the dump with its value", tj.loc(),
+                    why_fail=f"dump has {d.get(k)!r}" if isinstance(d, dict) else repr(d))
+        if feats:
+            r.check(isinstance(d, dict) and d.get("entity_features") == feats, f"Survey.to_json_dict[entity_features={feats}]:entity_features", "the entity features are in the dump", tj.loc())
+    # children: list (sections) and tuple (osm tags, choices of a select)
+    ocls = repo.cls("pyxform.question:OsmUploadQuestion")
+    tcls = repo.cls("pyxform.question:Tag")
+    gcls = repo.cls("pyxform.section:GroupedSection")
+    qcls = repo.cls("pyxform.question:InputQuestion")
+
+    def mkel(ci, **kw_):
+        sl = tuple(_slots(ctx, ci))
+        a = {k: None for k in sl}
+        a.update(kw_)
+        return Obj(ci, a, name=kw_.get("name", "el"), slots=sl)
+    for desc, el, want in (
+            ("osm question, tags as a tuple", mkel(ocls, name="o", type="osm", label="O", bind={"type": "binary"}, control={"tag": "upload", "mediatype": "osm/*"},
+                                                   children=(mkel(tcls, name="building", label="Building"), mkel(tcls, name="levels", label="Levels"))), ["building", "levels"]),
+            ("osm question, tags as a list", mkel(ocls, name="o", type="osm", label="O", bind={"type": "binary"}, control={"tag": "upload", "mediatype": "osm/*"},
+                                                  children=[mkel(tcls, name="building", label="Building")]), ["building"]),
+            ("group, rows as a list", mkel(gcls, name="g", type="group", label="G", children=[mkel(qcls, name="a", type="text", label="A", bind={"type": "string"}), mkel(qcls, name="b", type="text", label="B", bind={"type": "string"})]), ["a", "b"]),
+            ("group, rows as a tuple", mkel(gcls, name="g", type="group", label="G", children=(mkel(qcls, name="a", type="text", label="A", bind={"type": "string"}),)), ["a"])):
+        tjx = next(c.methods["to_json_dict"] for c in ctx.consts.interp.mro(el.cls) if "to_json_dict" in c.methods)
+        it = ctx.interp("C16.R10", hooks={"fnname:validate": lambda i, a, k, n: None})
+        it.reset([])
+        try:
+            d = it.call_function(tjx, [el], {}, None, tjx.node)
+            got = [c.get("name") for c in (d.get("children") or [])] if isinstance(d, dict) else None
+        except Raised as e:
+            got = f"raises {e.exc_name}{e.exc_args}"
+        r.check(got == want, f"to_json_dict[{desc}]", "the dump lists every child, in order", tjx.loc(), why_fail=f"children in the dump: {got!r}")
+    return r
 
 
 def builder_input_rule(ctx, prop, rid):
